@@ -87,12 +87,9 @@ Definition amb_view (sb : bool) (n : nat) (c : cfg) : sexp :=
        :: map (fun r => Num (if q_started (get_req r (c_w c)) then read_item sb r c CANARY_SLOT else (-3)%Z))
               (seq 1 n)).
 
-Fixpoint mapi_from {A B} (i : nat) (f : nat -> A -> B) (l : list A) : list B :=
-  match l with [] => [] | x :: t => f i x :: mapi_from (S i) f t end.
-
 Definition run_coarse (sb : bool) (views : list view) (acts : list coarse) : cfg * list sexp :=
   let n := length views in
-  let c0 := init_world (mapi_from 1 (fun r v => (main_prog r v, max_gate v)) views) in
+  let c0 := init_world (harness_progs views) in
   fold_left (fun st a => (apply_coarse sb a (fst st), snd st ++ [amb_view sb n (fst st)])) acts (c0, []).
 
 Definition run_C20 (c : sexp) : sexp :=
